@@ -350,10 +350,10 @@ func ruleS9(c *Ctx) {
 		return false, false, 0
 	}
 	type res struct {
-		ret       *ssa.Return
-		viaEqual  bool
-		retTrue   bool
-		retKnown  bool
+		ret        *ssa.Return
+		viaEqual   bool
+		retTrue    bool
+		retKnown   bool
 		pathBlocks []int
 	}
 	var explore func(b *ssa.BasicBlock, prev *ssa.BasicBlock, env s9env, equalOK bool, path []int, out *[]res)
@@ -431,7 +431,7 @@ func ruleS9(c *Ctx) {
 	// newChecker sets the anchor field from the query predicate's TimeAnchor (the assumption used above)
 	if nc := c.mustFunc("storage/memory", "newChecker"); nc != nil {
 		okAnchor := false
-		allInstrs(nc, func(in ssa.Instruction) {
+		walkHelpers(nc, 2, func(_ *ssa.Function, in ssa.Instruction, _ ssa.Instruction) {
 			if call, ok := in.(*ssa.Call); ok && call.Call.StaticCallee() != nil && call.Call.StaticCallee().Name() == "TimeAnchor" {
 				okAnchor = true
 			}
